@@ -138,8 +138,9 @@ def finish(prop, obs, t0, level='proof', functions=None, bounds=None, trusted=No
     if extra: cov.update(extra)
     ev = {'property_id': prop, 'tier': tier(), 'seed': seed(), 'level': level, 'coverage': cov,
           'assumptions': assumptions or [], 'wall_s': round(time.time() - t0, 2), 'violations': nviol}
-    os.makedirs(os.path.join(VERIF, 'evidence'), exist_ok=True)
-    json.dump(ev, open(os.path.join(VERIF, 'evidence', f'{prop}.json'), 'w'), indent=1, default=str)
+    evdir = os.environ.get('DV_EVIDENCE_DIR', os.path.join(VERIF, 'evidence'))     # (lanes of the seeded sweep write scratch evidence elsewhere)
+    os.makedirs(evdir, exist_ok=True)
+    json.dump(ev, open(os.path.join(evdir, f'{prop}.json'), 'w'), indent=1, default=str)
     for l in lines: print(l)
     print(f'[{prop}] obligations={len(obs)} proved={proved} known={known} violated={nviol} inconclusive={ninc} wall={ev["wall_s"]}s')
     for o in obs:
